@@ -42,7 +42,8 @@ def prefixes(P, tier, rnd):
         opt_sets.append((E,))
     if "us" in kinds:
         opt_sets = [(U,), (E, U)]
-    hs = list(HANDLERS) if tier == "thorough" else [rnd.choice(list(HANDLERS))]
+    # thorough: every body, two handlers and three shapes each (the full product of 5 handlers x 6 shapes does not finish in hours)
+    hs = rnd.sample(list(HANDLERS), 2) if tier == "thorough" else [rnd.choice(list(HANDLERS))]
     out = []
     for opts in opt_sets:
         for h in hs:
@@ -59,7 +60,8 @@ def prefixes(P, tier, rnd):
             # the ERR handler for the `return` statements *inside the prelude's functions*, which the model cannot see
             if ("fn" in kinds or "sub" in kinds) and ERRTRACE_OK:
                 shapes["errtrace"] = [EE, trap_item("trape", ERR_HANDLERS[eh]), trap_item("trapx", H)]
-            names = list(shapes) if tier == "thorough" else ["set", rnd.choice(["replaced", "removed", "err+exit", "err"] + (["errtrace"] if "errtrace" in shapes else []))]
+            others = ["replaced", "removed", "err+exit", "err"] + (["errtrace"] if "errtrace" in shapes else [])
+            names = ["set"] + (rnd.sample(others, 2) if tier == "thorough" else [rnd.choice(others)])
             for nm in names:
                 out.append((nm + "/" + h, list(opts) + shapes[nm]))
     return out
@@ -87,6 +89,7 @@ def run(tier):
             w = ic.wrap(P, ic.prog_id(P, [label, str(pre)]), pre)
             wrapped.append(w)
             labels[w["id"]] = label
+    wrapped = ic.cap(wrapped, int(os.environ.get("VERIF_THOROUGH_CAP", "100000")))
     preds, mstats = ic.predict(wrapped)
     fronts = ("c", "file", "stdin")
     results = ic.run_cases(wrapped, preds, fronts=fronts)
